@@ -79,7 +79,7 @@ def render(text: str, mode: Any) -> Tuple[str, bool, List[str], Optional[str]]:
 
 
 def _ctrl_escape(s: str) -> str:
-    return ''.join(('\\x%02x' % ord(c)) if (ord(c) < 32 and c not in '\r\n\t\f') else c for c in s)
+    return ''.join(('\\x%02x' % ord(c)) if (ord(c) < 32 and c not in '\r\n\t') else c for c in s)
 
 
 def _is_interesting(tree: ast.AST) -> bool:
@@ -95,7 +95,9 @@ def check_text(text: str, mode: Any) -> List[Tuple[str, str]]:
     desc = 'expr %s mode %s shown %r' % (trunc(text, 200), mode, trunc(shown, 300))
     if problem:
         has_nbsp = any(isinstance(n, ast.Constant) and isinstance(n.value, str) and '\xa0' in n.value for n in ast.walk(src))
-        out.append(('stan-fails:nbsp-in-string' if (has_nbsp and 'undefined entity' in problem) else 'stan-vs-node', '%s: %s' % (desc, problem)))
+        has_nonchar = any(isinstance(n, ast.Constant) and isinstance(n.value, str) and ('\ufffe' in n.value or '\uffff' in n.value) for n in ast.walk(src))
+        out.append(('stan-fails:nbsp-in-string' if (has_nbsp and 'undefined entity' in problem) else
+                    'stan-fails:xml-noncharacter-in-string' if (has_nonchar and 'not well-formed' in problem) else 'stan-vs-node', '%s: %s' % (desc, problem)))
     if complete:
         unwrapped = shown.replace(WRAP + '\n', '')
         why = exprnorm.same(src, unwrapped)
